@@ -371,7 +371,7 @@ def seq_case(draw, tier):
             v = -v
         items.append([kind, v])
     return {'items': items, 'prefix': draw(st.text('01', max_size=10)), 'cut': draw(st.integers(0, 6)) if draw(st.integers(0, 2)) == 0 else 0,
-            'cls': draw(st.sampled_from(['ConstBitStream', 'BitStream'])), 'mode': draw(st.sampled_from(['read', 'readlist', 'unpack', 'readlist_str', 'mixed', 'dtype_objects', 'read_dtype_objects'])),
+            'cls': draw(st.sampled_from(['ConstBitStream', 'BitStream'])), 'mode': draw(st.sampled_from(['read', 'readlist', 'unpack', 'readlist_str', 'mixed', 'dtype_objects', 'read_dtype_objects', 'peek_edit_read', 'peek_edit_read'])),
             'opt_ba': draw(st.sampled_from([False, False, True]))}
 
 
@@ -416,6 +416,45 @@ def run_seq(case):
             require(got == r[0], 'read in a sequence differs', i=i, got=got, expected=r[0])
             require(s.pos == r[1], 'pos did not advance by exactly one codeword', i=i, pos=s.pos, expected=r[1])
             pos = r[1]
+    elif mode == 'peek_edit_read':
+        # peek a code, change the data under the position in place (every kind of mutator), read: the read decodes what is there now
+        if case['cls'] == 'BitStream' and not any(e == TRUNC for e in exp):
+            pos = p0
+            cur = data
+            for i, (k, _) in enumerate(items[:8]):
+                r = dec(k, cur, pos)
+                if r == TRUNC:
+                    break
+                pk = attempt(s.peek, k)
+                require(not is_raised(pk) and pk == r[0] and s.pos == pos, 'peek differs or moved pos', got=pk, expected=r[0])
+                how = ['invert_bit', 'set_bit', 'setitem', 'overwrite', 'invert_all', 'reverse_tail', 'none', 'ixor'][(i + len(data)) % 8]
+                j = pos + (i % max(r[1] - pos, 1))
+                if how == 'invert_bit':
+                    s.invert(j)
+                elif how == 'set_bit':
+                    s.set(cur[j] == '0', j)
+                elif how == 'setitem':
+                    s[j] = cur[j] == '0'
+                    s.pos = pos
+                elif how == 'overwrite':
+                    s.overwrite('0b1' if cur[j] == '0' else '0b0', j)
+                    s.pos = pos
+                elif how == 'invert_all':
+                    s.invert()
+                elif how == 'reverse_tail':
+                    s.reverse(pos, len(cur))
+                elif how == 'ixor':
+                    s ^= bs.Bits(bin='0' * j + '1' + '0' * (len(cur) - j - 1))
+                cur = s.bin
+                require(s.pos == pos, 'an in-place edit that keeps the length moved pos', how=how, pos=s.pos, expected=pos)
+                r2 = dec(k, cur, pos)
+                got = attempt(s.read, k)
+                if r2 == TRUNC:
+                    require(is_raised(got, bs.ReadError) and s.pos == pos, 'read of a (now) truncated code must raise ReadError and keep pos', got=got, how=how)
+                    break
+                require(not is_raised(got) and got == r2[0] and s.pos == r2[1], 'read after peek + in-place edit does not decode the current bits', how=how, got=got, expected=r2[0], pos=s.pos,
+                        expected_pos=r2[1], kind=k)
+                pos = r2[1]
     elif mode == 'read_dtype_objects':
         # read(Dtype object), alternating a scaled and the plain dtype of the same code: the scale multiplies the value, never the position
         pos = p0
